@@ -67,6 +67,13 @@ impl vstd::std_specs::convert::FromSpecImpl<IoError> for Error {
     open spec fn obeys_from_spec() -> bool { false }
     open spec fn from_spec(e: IoError) -> Self { arbitrary() }
 }
+impl Error {
+    /// assumed contract (String/Cow conversions are outside the verified subset): an ill-formedness or an encoding error
+    #[verifier::external_body]
+    pub fn missed_end(name: QName, decoder: Decoder) -> (r: Self)
+        ensures r is IllFormed || r is Encoding
+    { unimplemented!() }
+}
 impl From<IoError> for Error {
 //@extract errors::From<IoError>::from | src/errors.rs :: impl From<IoError> for Error :: fn from | serves=C18
     fn from(error: IoError) -> (r: Error)
@@ -330,9 +337,24 @@ pub enum ParseState {
 //@end
 
 //@extract name::QName | src/name.rs :: struct QName | serves=C01
+ #[derive(Clone, Copy)]
  pub struct QName<'a>(pub &'a [u8]);
 //@end
 
+/// `#[derive(PartialEq)]` of QName, written out (trusted transcription of the derive): compares the bytes
+impl<'a> vstd::std_specs::cmp::PartialEqSpecImpl for QName<'a> {
+    open spec fn obeys_eq_spec() -> bool { true }
+    open spec fn eq_spec(&self, o: &Self) -> bool { self.0@ == o.0@ }
+}
+impl<'a> PartialEq for QName<'a> {
+    fn eq(&self, o: &Self) -> (r: bool)
+        ensures r == (self.0@ == o.0@)
+    {
+        let r = self.0 == o.0;
+        proof { if r { assert(self.0@ =~= o.0@); } }
+        r
+    }
+}
 //@extract events::BytesStart | src/events/mod.rs :: struct BytesStart | serves=C01
  pub struct BytesStart<'a> {
     /// content of the element, before any utf8 conversion
